@@ -59,12 +59,6 @@ theorem C06_view_size (t : Ty) (v : Val) (hw : t.WF) (hc : Conf t v) (hs : vsize
   simp only [List.drop_zero, List.take_append_of_le_length (Nat.le_of_eq (le_length 8 _).symm)]
   rw [List.take_of_length_le (Nat.le_of_eq (le_length 8 _)), fromLE_le, Nat.mod_eq_of_lt (by simpa using hs)]
 
-/-- **writes through either are seen through the other**: handle and view address the same bytes - both are positions in the
-one buffer image, so a write through one IS a change of the memory the other reads.  Stated for the model: the view's reading
-is a function of the current memory only (no cached value), hence after any write `w` both read `readD t (w m) off`. -/
-theorem C06_no_private_state (t : Ty) (m1 m2 : Mem) (off : Nat) (h : m1 = m2) : readD t m1 off = readD t m2 off := by
-  rw [h]
-
 /-- **same strides**: the strides a view caches - class constants for a static shape, the header words for an N-dimensional
 dynamic shape, the item unit for one dimension - are `get_strides(shape, order, unit)` of the constructed object, for every
 axis order that is a permutation of the axes -/
